@@ -17,6 +17,7 @@ structure ProtDesc where
   idW : Nat
   userW : Nat
   typePrefix : Option String := some "axi"
+  direction : Option String := none   -- may be declared; otherwise inferred from use
   deriving Repr, DecidableEq, Inhabited
 
 def ProtDesc.typeName (p : ProtDesc) : String :=
